@@ -754,6 +754,24 @@ Definition value_method (r : pv) (m : string) (args : list pv) (kws : list (stri
   | _ => Unsupported ("method " ++ m)
   end.
 
+(** dict literal / insertion: a key that is already there keeps its place and gets the new value *)
+Fixpoint dict_set (l : list (pv * pv)) (k v : pv) : option (list (pv * pv)) :=
+  match l with
+  | [] => Some [(k, v)]
+  | (k', v') :: r =>
+      match py_eq k k' with
+      | Some true => Some ((k', v) :: r)
+      | Some false => option_map (cons (k', v')) (dict_set r k v)
+      | None => None
+      end
+  end.
+
+Fixpoint dict_build (ps acc : list (pv * pv)) : option (list (pv * pv)) :=
+  match ps with
+  | [] => Some acc
+  | (k, v) :: r => match dict_set acc k v with Some a => dict_build r a | None => None end
+  end.
+
 (** * Classes *)
 Definition mro_depth : nat := 6.
 Fixpoint find_class (cs : list class) (n : string) : option class :=
@@ -1014,6 +1032,7 @@ Section Interp.
                     (* dataclass: the generated __init__ *)
                     do e <- bind_params (fun d => match d with
                                                   | EConst v => Ok v
+                                                  | ETuple Enil => Ok (PTuple [])
                                                   | EAttr (EName ec) en =>
                                                       match find_class (p_classes P) ec with
                                                       | Some ecl => match c_enum ecl with
@@ -1146,7 +1165,11 @@ Section Interp.
     | EDict ks vs =>
         do (kl, e1) <- eval_list e ks;
         do (vl, e2) <- eval_list e1 vs;
-        if Nat.eqb (List.length kl) (List.length vl) then Ok (PDict (combine kl vl), e2)
+        if Nat.eqb (List.length kl) (List.length vl) then
+          match dict_build (combine kl vl) [] with
+          | Some d => Ok (PDict d, e2)
+          | None => Unsupported "dict key"
+          end
         else Unsupported "dict literal"
     | EStar _ => Unsupported "starred expression"
     end
